@@ -469,6 +469,7 @@ printf("debug> parse_ifdef_expression() result is %d\n", num);
     asm_context->tokens.line++;
   }
 
-  return num;
+  // -1 is the error value: a condition is only true or false.
+  return num != 0 ? 1 : 0;
 }
 
